@@ -32,6 +32,16 @@ func newCheckpoint(stats SamplingStats) checkpoint {
 				JobType: w.JobType,
 			})
 		}
+		// the exception is a recent job for the height the catchup cursor was pointing at: the cursor
+		// has been moved past that height when the job was created, so catchup will not cover it
+		// after restart and the job has to be resumed.
+		if w.JobType == recentJob && w.To <= stats.CatchupHead {
+			workers = append(workers, workerCheckpoint{
+				From:    w.Curr,
+				To:      w.To,
+				JobType: w.JobType,
+			})
+		}
 	}
 	return checkpoint{
 		SampleFrom:  stats.CatchupHead + 1,
